@@ -271,6 +271,7 @@ type leanFile struct {
 	name  string
 	src   string
 	lines []string
+	raw   string // complete file content (GoMini translations)
 }
 
 func newLean(name, src string, imports ...string) *leanFile {
@@ -313,6 +314,9 @@ func (l *leanFile) nat(name, rel, cname string, prev int64) {
 func (l *leanFile) write(dir string) {
 	l.lines = append(l.lines, "end Liftbridge.Gen."+l.name, "")
 	content := strings.Join(l.lines, "\n")
+	if l.raw != "" {
+		content = l.raw
+	}
 	p := filepath.Join(dir, l.name+".lean")
 	if old, err := os.ReadFile(p); err == nil && string(old) == content {
 		return // keep mtime: no rebuild
@@ -337,6 +341,7 @@ func main() {
 
 	var out []*leanFile
 	out = append(out, genEnvelope(), genLog(), genRetention(), genCompact(), genPartition(), genSubscribe(), genTelemetry(), genHandlers(), genGroups(), genSeal(), genGroupSub(), genActivity(), genFailover(), genMetadata(), genRecover(), genProtocol(), genCursors(), genHWReader(), genSealPipe(), genPipeline())
+	out = append(out, genGoMiniAll()...)
 
 	keep := map[string]bool{}
 	for _, l := range out {
